@@ -706,15 +706,16 @@ class Formatter:
             return f"FROM {source}"
 
         from_ = listwrap(from_)
-        parts = []
+        rest = ""
         for v in from_:
             if join_keywords & set(v):
-                joiner = " "
-                parts.append(self._join_on(v, precedence["from"] - 1))
+                # AN EXPLICIT JOIN FOLLOWS THE PREVIOUS SOURCE WITHOUT A COMMA
+                rest += " " + self._join_on(v, precedence["from"] - 1)
+            elif rest:
+                rest += joiner + self.dispatch(v, precedence["from"] - 1)
             else:
-                parts.append(self.dispatch(v, precedence["from"] - 1))
-        rest = joiner.join(parts)
-        return f"FROM {rest}"
+                rest = self.dispatch(v, precedence["from"] - 1)
+        return f"FROM {rest.strip()}"
 
     def where(self, json, prec):
         expr = self.dispatch(json["where"])
